@@ -114,7 +114,7 @@ def walk_terms(v):
 
 
 class Explorer:
-    def __init__(self, f, stop=None, unwind=False, max_paths=600, max_visits=2, max_steps=4000, on_call=None, decide=None):
+    def __init__(self, f, stop=None, unwind=False, max_paths=600, max_visits=2, max_steps=4000, on_call=None, decide=None, stop_blocks=None):
         self.f = f
         self.stop = stop            # stop(bb, term, state) -> reason or None : checked before a call / drop is executed
         self.unwind = unwind
@@ -123,6 +123,7 @@ class Explorer:
         self.max_steps = max_steps
         self.on_call = on_call      # on_call(bb, term, args, state) -> value or None : model a call's result
         self.decide = decide        # decide(bb, term, value, state) -> list of targets or None
+        self.stop_blocks = set(stop_blocks or ())   # entering one of these blocks ends the path ("stop", bb, "block")
         self.paths = []
 
     # -- switch handling ---------------------------------------------------------------------
@@ -224,6 +225,9 @@ class Explorer:
                 steps += 1
                 if steps > self.max_steps * 50:
                     raise CheckerError("abstract exploration of %s does not terminate" % f.id)
+                if bb in self.stop_blocks and blocks:
+                    self._emit(Path(blocks + [bb], st, events, conds, ("stop", bb, "block")))
+                    break
                 n = visits.get(bb, 0)
                 if n >= self.max_visits:
                     self._emit(Path(blocks + [bb], st, events, conds, ("cut", bb)))
@@ -346,3 +350,23 @@ def str_consts(v):
 
 def calls_in(v):
     return [x for x in walk_terms(v) if x and x[0] == "call"]
+
+
+def io_model(bb, t, args, st):
+    """on_call model of the two std::io::Error operations the parser's error arms depend on: `Error::new(kind, _).kind()`
+    is `kind`, and comparing two known ErrorKind values is decided"""
+    n = call_name(t)
+    def val(a):
+        return st.read_key(a[1]) if a[0] == "ref" else (a[1] if a[0] == "constref" else a)
+    if n == "std::io::Error::kind" and args:
+        e = val(args[0])
+        if e[0] == "call" and e[1].startswith("std::io::Error::new") and e[2]:
+            return e[2][0]
+    if n.endswith("std::io::ErrorKind as std::cmp::PartialEq>::eq") or n.endswith("std::io::ErrorKind as std::cmp::PartialEq>::ne"):
+        a, b = val(args[0]), val(args[1])
+        if a[0] == "agg" and b[0] == "agg" and a[1] == b[1] == "std::io::ErrorKind":
+            r = a[2] == b[2]
+            if n.endswith("::ne"):
+                r = not r
+            return ("const", r, str(r).lower(), None)
+    return None
